@@ -351,4 +351,18 @@ theorem C09_pipeline_readings_agree (table : Parser.Table) (ops : Resolver.OpTab
       Pipeline.designMatricesModel table ops actions formula env naAction :=
   Pipeline.designMatrices_eq_model table ops actions formula env naAction h
 
+/-- the hypothesis of `C09_pipeline_readings_agree` is satisfiable (a frame with missing values in
+used columns, a formula with an interaction and a call), and fails exactly where a variable is
+removed again -/
+def selFrame : Frame :=
+  [⟨"y", .numeric false, [.num 1, .num 2, .num 3]⟩, ⟨"a", .numeric false, [.num 1, .na, .num 2]⟩,
+   ⟨"x", .numeric false, [.na, .num 3, .num 4]⟩, ⟨"u", .numeric false, [.na, .na, .num 0]⟩]
+
+example : Pipeline.SameSelection Generated.parserTable Generated.resolverOps "y ~ a:x + f(x, k = a)"
+    selFrame :=
+  Pipeline.sameSel_sound _ _ _ _ (by decide +kernel)
+
+example : Pipeline.sameSel Generated.parserTable Generated.resolverOps "y ~ a + x - x" selFrame = false := by
+  decide +kernel
+
 end FormulaeModel.C09
